@@ -49,7 +49,11 @@ class StatePreparationChannel(raw_types.Gate):
         if 2**n != target_state.shape[0]:
             raise ValueError(f'Matrix width ({target_state.shape[0]}) is not a power of 2')
 
-        self._state = target_state.astype(np.complex128) / np.linalg.norm(target_state)
+        norm = np.linalg.norm(target_state)
+        state = target_state.astype(np.complex128)
+        # A state that is already normalized is kept bit for bit, so that re-creating the channel
+        # from its own state (repr, JSON) gives an equal channel.
+        self._state = state if abs(norm - 1) <= 1e-12 else state / norm
         self._num_qubits = n
         self._name = name
         self._qid_shape = (2,) * n
